@@ -7,6 +7,9 @@ from ..cfg import CFG
 from ..core import (AnalysisError, depends_on, dotted, is_self_attr, key_text, kwarg, local_defs,
                     method_calls, names_in, params, stmt_calls, stmts_of, unparse, body_nodes,
                     assigned_targets, parent)
+from ..inline import inline_helpers
+from ..normal import inline_temps
+from ..pattern import find, guards_of, pmatch
 
 THREAD = 'tenpy/tools/thread.py'
 CACHE = 'tenpy/tools/cache.py'
@@ -210,6 +213,43 @@ def _has_call(node, dn):
     return any(isinstance(c, ast.Call) and dotted(c.func) == dn for c in ast.walk(node))
 
 
+def _namedtuple_fields(m, name):
+    for st in m.tree.body:
+        if isinstance(st, ast.Assign) and unparse(st.targets[0]) == name and isinstance(
+                st.value, ast.Call) and dotted(st.value.func) in ('namedtuple',
+                                                                   'collections.namedtuple'):
+            a = st.value.args[1] if len(st.value.args) > 1 else None
+            if isinstance(a, ast.Constant) and isinstance(a.value, str):
+                return a.value.replace(',', ' ').split()
+            if isinstance(a, (ast.List, ast.Tuple)):
+                return [e.value for e in a.elts if isinstance(e, ast.Constant)]
+    raise AnalysisError('namedtuple %s not found' % name)
+
+
+class _Iteration:
+    """one iteration construct over a collection: a `for` statement or a comprehension clause"""
+
+    def __init__(self, target, iter_, body, stmt, skips):
+        self.target, self.iter, self.body, self.stmt, self.skips = target, iter_, body, stmt, skips
+        self.lineno = stmt.lineno
+
+
+def _iterations(f):
+    out = []
+    for s in ast.walk(f):
+        if isinstance(s, ast.For):
+            skips = [x for b in s.body for x in ast.walk(b)
+                     if isinstance(x, (ast.Break, ast.Continue, ast.Return))]
+            out.append(_Iteration(s.target, s.iter, s.body, s, skips))
+        elif isinstance(s, (ast.ListComp, ast.GeneratorExp, ast.SetComp)):
+            st = s
+            while not isinstance(st, ast.stmt):
+                st = parent(st)
+            g = s.generators[0]
+            out.append(_Iteration(g.target, g.iter, [s.elt], st, list(g.ifs)))
+    return out
+
+
 def check_threaded_storage(prog, rep):
     m = prog.module(CACHE)
     rep.unit(m)
@@ -218,6 +258,14 @@ def check_threaded_storage(prog, rep):
     for need in ('load', 'preload', 'save', 'delete', 'close', '__exit__', 'subcontainer'):
         if need not in meths:
             raise AnalysisError('ThreadedStorage.%s vanished' % need)
+    # private helpers (extracted common code) are analysed as part of their callers
+    inl_all = {}
+    for name in list(meths):
+        g, inl = inline_helpers(meths[name], 'ThreadedStorage.' + name, m, prog)
+        if inl:
+            meths[name] = inline_temps(g, names_only=True)
+            inl_all[name] = inl
+    rep.extra['threaded_storage_inlined_helpers'] = inl_all
     # (1) add(k) to _waiting_for_load paired with put_task(disk_storage.load, k, return_dict=_loaded, return_key=k)
     for name, f in meths.items():
         q = 'ThreadedStorage.' + name
@@ -541,22 +589,47 @@ def check_dictcache(prog, rep):
                       '`get` must return `default` exactly for keys not in the cache and the '
                       'stored value otherwise', f.lineno)
     # set_short_term_keys: purge everything not in keys
-    f = meths['set_short_term_keys']
-    rep.instance('DC-short-term-purge', {})
+    f = inline_temps(meths['set_short_term_keys'])
+    rep.instance('DC-short-term-purge', {'normal_form_inlined': f._inlined_names})
+    pk = f.args.vararg.arg if f.args.vararg is not None else params(f)[-1]
+    newkeys = ('self.short_term_keys', 'set(%s)' % pk, pk)
     ok = False
-    for n in body_nodes(f):
-        if isinstance(n, ast.For):
-            for x in ast.walk(n):
-                if isinstance(x, ast.If) and isinstance(x.test, ast.Compare) and isinstance(
-                        x.test.ops[0], ast.NotIn) and any(isinstance(d, ast.Delete)
-                                                          for d in x.body):
-                    ok = True
+    for st in ast.walk(f):
+        if not isinstance(st, ast.Delete):
+            continue
+        for tg in st.targets:
+            e = pmatch('$$c[$k]', tg)
+            if not e or not unparse(e['$$c']).endswith('short_term_cache'):
+                continue
+            k = e['$k']
+            lp = parent(st)
+            while lp is not None and not (isinstance(lp, ast.For) and unparse(lp.target) == k):
+                lp = parent(lp)
+            if lp is None or 'short_term_cache' not in unparse(lp.iter):
+                continue
+            cond = [t for t, pol, _ in guards_of(f, st) if not pol]
+            for x in ast.walk(lp.iter):
+                if isinstance(x, ast.comprehension):
+                    for c in x.ifs:
+                        ee = pmatch('$j not in $$K', c)
+                        if ee and ee['$j'] == unparse(x.target):
+                            cond.append('%s in %s' % (k, unparse(ee['$$K'])))
+            if any(c == '%s in %s' % (k, K) for c in cond for K in newkeys):
+                ok = True
+    for st in ast.walk(f):      # or: the cache is rebuilt keeping only listed keys
+        if isinstance(st, ast.Assign) and any(is_self_attr(t, 'short_term_cache')
+                                              for t in st.targets) and \
+                isinstance(st.value, ast.DictComp) and any(
+                    pmatch('$j in $$K', c) and unparse(pmatch('$j in $$K', c)['$$K']) in newkeys
+                    for g in st.value.generators for c in g.ifs):
+            ok = True
     reb = any(isinstance(n, ast.Assign) and any(is_self_attr(t, 'short_term_keys')
-                                                for t in n.targets) for n in body_nodes(f))
+                                                for t in n.targets) and
+              unparse(n.value) in ('set(%s)' % pk, ) for n in body_nodes(f))
     if not (ok and reb):
         rep.violation('DC-short-term-purge', m, 'DictCache.set_short_term_keys', 'purge',
-                      '`set_short_term_keys` must rebind `short_term_keys` and drop cached values '
-                      'of keys no longer listed', f.lineno)
+                      '`set_short_term_keys` must rebind `short_term_keys` to the new set and drop '
+                      'the cached values of exactly the keys no longer listed', f.lineno)
     # create_subcache: isolated storage
     f = meths['create_subcache']
     rep.instance('DC-subcache', {})
@@ -679,24 +752,42 @@ def check_events(prog, rep):
     incs += [s for s in stmts_of(f) if isinstance(s, ast.Assign) and any(
         is_self_attr(t, '_id_counter') for t in s.targets) and unparse(s.value) in (
             'self._id_counter + 1', '1 + self._id_counter', 'listener_id + 1')]
-    mk = [c for c in body_calls(f) if dotted(c.func) == 'Listener']
+    nf = inline_temps(f)
+    mk = [c for c in body_nodes(nf) if isinstance(c, ast.Call) and dotted(c.func) == 'Listener']
+    fields = _namedtuple_fields(m, 'Listener')
     ok = len(incs) == 1 and len(mk) == 1
     if ok:
         c = mk[0]
-        idarg = c.args[0] if c.args else kwarg(c, 'listener_id')
-        ok = idarg is not None and depends_on(f, idarg, ['self']) and '_id_counter' in ' '.join(
-            unparse(v) for v in local_defs(f).get(unparse(idarg), [idarg]))
+        bound = dict(zip(fields, c.args))
+        for k in c.keywords:
+            if k.arg is not None:
+                bound[k.arg] = k.value
+        idarg = bound.get('listener_id')
+        # the id is the counter (named temporaries resolved by the normal form, or one local)
+        idtxt = unparse(idarg) if idarg is not None else ''
+        if isinstance(idarg, ast.Name):
+            idtxt = ' '.join(unparse(v) for v in local_defs(nf).get(idarg.id, [idarg]))
+        ok = idtxt == 'self._id_counter'
         # listener appended
+        defs = local_defs(nf)
         ok = ok and any(dotted(c2.func) == 'self.listeners.append' and c2.args and (
-            c2.args[0] is c or depends_on(f, c2.args[0], [])) or
-            (dotted(c2.func) == 'self.listeners.append' and c in ast.walk(c2))
-            for c2 in body_calls(f))
-        # callback, priority, extra_kwargs forwarded in order
-        rest = [unparse(a) for a in c.args[1:]]
-        if rest[:2] != ['callback', 'priority']:
-            ok = False
-        # loop / conditional around increment?
+            c in ast.walk(c2) or (isinstance(c2.args[0], ast.Name) and
+                                  defs.get(c2.args[0].id) == [c]))
+            for c2 in body_nodes(nf) if isinstance(c2, ast.Call))
+        # callback, priority, extra_kwargs forwarded to their own fields
+        for fld in ('callback', 'priority', 'extra_kwargs'):
+            if fld not in bound or unparse(bound[fld]) != fld:
+                ok = False
+        # the increment happens on every path that registers a listener
         cfg = CFG(f)
+        app = [st for st in stmts_of(f) if any(
+            isinstance(c2, ast.Call) and dotted(c2.func) == 'self.listeners.append'
+            for c2 in ast.walk(st)) and not isinstance(st, (ast.If, ast.For, ast.While))]
+        for st in app:
+            before = cfg.dominators_like_before(st, lambda n: n.stmt is incs[0])
+            after = not cfg.exit_reachable_avoiding(st, lambda n: n.stmt is incs[0])
+            if not (before or after):
+                ok = False
     if not ok:
         rep.violation('EV-connect-id', m, 'EventHandler.connect', 'id-allocation',
                       'connect must allocate `listener_id = self._id_counter`, increment the '
@@ -721,14 +812,13 @@ def check_events(prog, rep):
         f = m.func('EventHandler.' + name)
         rep.instance('EV-emit-sorted', {'function': name})
         cfg = CFG(f)
-        loops = [s for s in stmts_of(f) if isinstance(s, ast.For) and 'self.listeners' in unparse(
-            s.iter)]
+        loops = [it for it in _iterations(f) if 'self.listeners' in unparse(it.iter)]
         if not loops:
             rep.violation('EV-emit-sorted', m, 'EventHandler.' + name, 'no-listener-loop',
                           '`%s` does not iterate over `self.listeners`' % name, f.lineno)
         for lp in loops:
             if not cfg.dominators_like_before(
-                    lp, lambda n: bool(_calls_named(n.stmt, 'self._prepare_emit'))):
+                    lp.stmt, lambda n: bool(_calls_named(n.stmt, 'self._prepare_emit'))):
                 rep.violation('EV-emit-sorted', m, 'EventHandler.' + name, 'emit-without-sort',
                               'listeners are called without `_prepare_emit()` (priority order)',
                               lp.lineno)
@@ -738,20 +828,22 @@ def check_events(prog, rep):
                               unparse(lp.iter), lp.lineno)
             # the callback of each listener is called with *args, **kwargs, **extra_kwargs
             okc = False
-            for c in ast.walk(lp):
-                if isinstance(c, ast.Call) and any(isinstance(a, ast.Starred) for a in c.args) \
-                        and sum(1 for k in c.keywords if k.arg is None) == 2:
-                    okc = True
+            for b in lp.body:
+                for c in ast.walk(b):
+                    if isinstance(c, ast.Call) and any(isinstance(a, ast.Starred)
+                                                       for a in c.args) \
+                            and sum(1 for k in c.keywords if k.arg is None) == 2:
+                        okc = True
             if not okc:
                 rep.violation('EV-emit-sorted', m, 'EventHandler.' + name, 'callback-args',
                               'callback not called as callback(*args, **kwargs, **extra_kwargs)',
                               lp.lineno)
-            # no break/continue skipping listeners in emit
+            # no break/continue/filter skipping listeners in emit
             if name == 'emit':
-                for x in ast.walk(lp):
-                    if isinstance(x, (ast.Break, ast.Continue, ast.Return)):
-                        rep.violation('EV-emit-sorted', m, 'EventHandler.emit', 'skips-listeners',
-                                      '`emit` leaves the listener loop early', x.lineno)
+                for x in lp.skips:
+                    rep.violation('EV-emit-sorted', m, 'EventHandler.emit', 'skips-listeners',
+                                  '`emit` leaves the listener loop early / filters listeners',
+                                  getattr(x, 'lineno', lp.lineno))
     # emit_until_result returns first non-None
     f = m.func('EventHandler.emit_until_result')
     rep.instance('EV-until-result', {})
